@@ -26,6 +26,7 @@ type env struct {
 	conn *iscp.Conn
 	up   *iscp.Upstream
 	down *iscp.Downstream
+	gate chan struct{}
 }
 
 func setup() (*env, error) {
@@ -45,13 +46,24 @@ func setup() (*env, error) {
 	if err != nil {
 		return nil, err
 	}
-	return &env{b, conn, up, down}, nil
+	return &env{b: b, conn: conn, up: up, down: down}, nil
 }
 
 func (e *env) teardown() {
+	if e.gate != nil {
+		func() {
+			defer func() { recover() }()
+			close(e.gate) // release a dial that still hangs at the gate
+		}()
+	}
 	ctx, cancel := context.WithTimeout(context.Background(), 300*time.Millisecond)
 	defer cancel()
-	e.conn.Close(ctx)
+	done := make(chan struct{})
+	go func() { e.conn.Close(ctx); close(done) }()
+	select {
+	case <-done:
+	case <-time.After(2 * time.Second):
+	}
 }
 
 // timed runs f and reports how long it took, or "stuck" after limit
@@ -199,6 +211,43 @@ func main() {
 		}, call: func(e *env, ctx context.Context) error {
 			return e.conn.SendBaseTime(ctx, &message.BaseTime{Name: "short"})
 		}},
+		{name: "SendCall after the ack of an earlier, timed-out call arrived late", silent: []string{"call"}, wantOK: true, before: func(e *env) {
+			c1, cancel := context.WithTimeout(context.Background(), 100*time.Millisecond)
+			e.conn.SendCall(c1, &iscp.UpstreamCall{DestinationNodeID: "d", Name: "early"})
+			cancel()
+			// the broker answers now, after the caller has given up - several times, as a slow broker retransmitting would
+			for _, r := range e.b.LogFrom(0) {
+				if c, ok := r.Msg.(*message.UpstreamCall); ok && c.Name == "early" {
+					for k := 0; k < 12; k++ {
+						e.b.Cur().Send(&message.UpstreamCallAck{CallID: c.CallID, ResultCode: message.ResultCodeSucceeded, ExtensionFields: &message.UpstreamCallAckExtensionFields{}})
+					}
+				}
+			}
+			time.Sleep(30 * time.Millisecond)
+			e.b.Lock()
+			e.b.Auto["call"] = true
+			e.b.Unlock()
+		}, call: func(e *env, ctx context.Context) error {
+			_, err := e.conn.SendCall(ctx, &iscp.UpstreamCall{DestinationNodeID: "d", Name: "later"})
+			return err
+		}},
+		{name: "Conn.Close / while a redial hangs in the network", before: func(e *env) {
+			e.b.Lock()
+			e.gate = make(chan struct{})
+			e.b.DialGate = e.gate
+			e.b.Unlock()
+			e.b.Cur().Kill()
+			// the client notices through its keepalive and starts to redial; the dial hangs at the gate
+			e.b.WaitFor(func() bool { return e.b.Dials >= 2 }, 3*time.Second)
+			time.Sleep(20 * time.Millisecond)
+		}, call: func(e *env, ctx context.Context) error {
+			err := e.conn.Close(ctx)
+			close(e.gate)
+			if err != nil {
+				return nil // any error is fine: what counts is that Close returns within its context
+			}
+			return nil
+		}, wantOK: true},
 		{name: "SendMetadata after Conn.Close", before: func(e *env) {
 			ctx, cancel := context.WithTimeout(context.Background(), time.Second)
 			defer cancel()
